@@ -15,13 +15,17 @@ PROPS = {
              "zero must raise an exception. Cases whose intermediates exceed 2^52 (dense fill) are not run and counted under label exact-guard-exceeded. "
              "Floating-point family: n<=80 (blocks n<=40) M-matrix/Hermitian, row and column strictly diagonally dominant values on the same patterns, residual <= c N^2 u ||A|| ||x|| "
              "(c = 8 real, 32 complex, x8 and x max(1, 2||A||/gap) for block values whose pivots are inverted explicitly), forward error for row-dominant matrices via ||A^-1|| <= 1/gap. "
+             "Large-diameter class (lu_long_*): chains, bands of width 2-3, 2-3 wide strips, caterpillars and unions of tiny components with n in [250,1500] (hundreds of breadth-first "
+             "level sets, label level-sets>=256/>=512), natural / reversed / random numbering, optional dropped directions, row- or column-dominant double and complex values, orderings "
+             "Cuthill-McKee / reverse / identity / random: both Cuthill-McKee variants must return a bijection (called on an output vector with slack so that surplus writes are reported), "
+             "the solver must not throw, residual <= min(8 N^2, 16 (W+1)^3) u ||A|| ||x|| (W = skyline half-width in the solver's ordering) and the forward error through 1/gap. "
              "detail::inverse / math::inverse: n=1..8 (static 2,3,4,5,6,8), signed permutation * 2^e (bitwise), P*L*U integers, dominant-after-permutation reals, graded rows; "
              "|A X - I| <= c n^2 2^(n-1) u max|a| ||x_k||_1. Cuthill-McKee (both variants): every undirected graph on <=6 nodes and every directed graph on <=4 nodes [5 thorough], with and "
              "without stored diagonal, plus random graphs n<=60: output is a permutation of 0..n-1. QR: shapes 1..12 x 1..12 (every shape x 8 families x both orders enumerated), row/col major, "
              "padded strides, real/complex/2x2 block; A=QR and Q^H Q=I within 16 m k u, R upper triangular, trailing Q columns zero, padding untouched; solve vs Eigen COD with "
              "50 max(m,n) u kappa (||x|| + kappa ||r||/||A||) and the normal-equation / consistency conditions, incl. computed=true reuse. static_matrix: entry-wise definitions and ring identities on "
              "integer blocks (double, complex, int; square and rectangular), bitwise. non-trivial: LU: n>=2 with fill inside the skyline, structural non-symmetry, block values or a zero pivot; "
-             "inverse: needs a row exchange; QR: m != n with min(m,n) >= 2; Cuthill-McKee: n>=3 and disconnected/non-symmetric/dense; distinct = distinct decoded choice sequences (64-bit hash).",
+             "large-diameter LU: >= 256 level sets; inverse: needs a row exchange; QR: m != n with min(m,n) >= 2; Cuthill-McKee: n>=3 and disconnected/non-symmetric/dense; distinct = distinct decoded choice sequences (64-bit hash).",
         assumptions=["arithmetic on integers / dyadic rationals below 2^52 is exact in double, complex multiplication and division by units included",
                      "LU without pivoting of a matrix diagonally dominant by rows or columns has |L||U| <= (2N-1)||A|| (Higham, Accuracy and Stability, ch. 9); the residual constant c absorbs the factor 3(2N-1)/N",
                      "Eigen's JacobiSVD and completeOrthogonalDecomposition are accurate to a few ulps times kappa on matrices up to 12x12",
@@ -40,7 +44,7 @@ MANIFEST_TEXT = {
                   "validity predicate for the reordering; ASan/UBSan twins",
         level_text="Generated-input search with exhaustive sub-scopes: the skyline LU solver is run on matrices constructed in its own elimination order so that the exact solution is representable "
                    "(bitwise comparison, zero pivot must throw) for every off-diagonal pattern up to 4x4 and random patterns up to 20 nodes, and on diagonally dominant / SPD / structurally non-symmetric / "
-                   "disconnected real, complex and block matrices up to n=80 with a backward-error bound; the pivoted inverse, QR (factorize and solve) and static_matrix algebra are compared with their "
+                   "disconnected real, complex and block matrices up to n=80 and on large-diameter (chain / band / strip / many-component) matrices up to n=1500 with a backward-error bound; the pivoted inverse, QR (factorize and solve) and static_matrix algebra are compared with their "
                    "definitions; Cuthill-McKee is checked to return a permutation on every graph up to 6 nodes. Small dense kernels with cheap exact oracles: enumeration plus generated search is the "
                    "appropriate level; absence beyond the enumerated sizes is not shown.",
         level_note="trusted: the Crout-recurrence constructor in props/c16_lu.cpp, long double / Eigen references, the stated rounding bounds; exhaustive:true only for the enumerated sub-scopes",
